@@ -7,6 +7,7 @@ import (
 	"math/big"
 	"math/bits"
 	"sort"
+	"sync"
 	"sync/atomic"
 
 	"verif/mc/core"
@@ -190,7 +191,29 @@ func f64Lattice(i int64) float64 {
 
 // c08Alphabet64 is the finite float64 alphabet (sorted keys); f32 restricts it to values
 // exactly representable as float32.
+var (
+	c08AlphaMu    sync.Mutex
+	c08AlphaCache = map[[2]int][]int64{}
+)
+
+// c08Alphabet64 is memoised: it depends on the destination depth and the source float type only, and
+// there are hundreds of instantiations.
 func c08Alphabet64(bd int, f32 bool) []int64 {
+	k := [2]int{bd, 0}
+	if f32 {
+		k[1] = 1
+	}
+	c08AlphaMu.Lock()
+	defer c08AlphaMu.Unlock()
+	if a, ok := c08AlphaCache[k]; ok {
+		return a
+	}
+	a := c08Alphabet64Compute(bd, f32)
+	c08AlphaCache[k] = a
+	return a
+}
+
+func c08Alphabet64Compute(bd int, f32 bool) []int64 {
 	var ks []int64
 	add := func(c float64) {
 		if math.IsNaN(c) {
@@ -392,10 +415,11 @@ func c08Run(c *core.Ctx) {
 		td := dyn.Types[d]
 		return c08Oracle(td.Bits, math.Float64frombits(in), rawToAmp(td.Kind, td.Bits, out))
 	}
+	wait := c.ReverseOrderPassAsync("mc-shim") // a process of its own, meanwhile
 	ctxPasses(c, "C08", c08Judge, false, floatToFixed)
 	c.Set("ctx_digests", digests)
 	c.Set("evaluations", evals.Load()+c.CtxEvals())
-	c.ReverseOrderPass("mc-shim")
+	wait()
 	c.Set("instantiations", inst)
 	c.Set("instantiations_with_exhaustive_source_domain", exh)
 	c.Set("exhaustive", exh == inst)
